@@ -19,6 +19,7 @@ From Verif Require Import Chain.Complete.
 From Verif Require Import Chain.Cycles.
 From Verif Require Import Chain.Order.
 From Verif Require Import Chain.Final.
+From Verif Require Import Chain.Validity.
 From Verif Require Import Chain.Examples.
 From Coq Require Import Permutation.
 Local Open Scope string_scope.
@@ -148,8 +149,9 @@ Proof. exact compile_map_order. Qed.
 (* ---------------------------------------------------------------- write guard *)
 
 (* EnsureConfigEntry / DeleteConfigEntry accept a write iff every chain the code re-validates —
-   the written name and the chains owning a router/splitter/resolver that names it; every chain with
-   such an entry for proxy-defaults — compiles with the write applied (deleting an absent entry
+   [affected]: the written name and every chain that reaches it through router / splitter / resolver
+   entries (breadth-first walk over the link index); every chain with such an entry for
+   proxy-defaults — compiles with the write applied (deleting an absent entry
    validates nothing); a rejected write leaves the stored entries unchanged. *)
 Theorem C15_write_guard : forall store op store' acc,
   write store op = (store', acc) ->
@@ -160,8 +162,19 @@ Theorem C15_write_guard : forall store op store' acc,
   (acc = true -> store' = proposed store op \/ (no_validation store op /\ store' = store)).
 Proof. exact write_guard. Qed.
 
-(* The chains re-validated are EVERY chain that can reach the written name (f9df4b1: the link index is
-   walked transitively).  The two-hop write that used to slip through — router a -> splitter b -> c,
+(* An accepted write breaks no chain: every chain that compiled over the stored entries still
+   compiles afterwards.  (The chains that can reach the written name are re-validated — the walk
+   over the link index is complete, f9df4b1; every other chain reads none of the changed entries.)
+   Hypothesis: no stored failover section sets both Datacenters and Targets — Validate refuses
+   such an entry, and ListRelatedServices (the link index) would not list its Service. *)
+Theorem C15_write_preserves_validity : forall store op store' mo,
+  (forall n r key f, get_resolver store n = Some r -> In (key, f) (rs_failover r) ->
+                     fo_dcs f = [] \/ fo_targets f = []) ->
+  write store op = (store', true) ->
+  forall x, (exists g, compile store test_ctx x mo = Ok g) -> exists g, compile store' test_ctx x mo = Ok g.
+Proof. exact write_preserves_validity. Qed.
+
+(* Regression witness: the two-hop write that used to be accepted — router a -> splitter b -> c,
    then service-defaults c protocol=grpc — is refused and leaves the store unchanged. *)
 Theorem C15_write_guard_two_hops :
   forallb (compiles indirect_store) ["a"; "b"; "c"] = true /\
@@ -202,6 +215,12 @@ Example C15_example_splitter_cycle :
   compile split_cycle test_ctx "a" [] = Err ECircularReference.
 Proof. exact example_splitter_cycle. Qed.
 
+Example C15_example_validity :
+  failover_wf ex_entries /\
+  write ex_entries (WPut (EDefaults "b" "http" false)) =
+    (proposed ex_entries (WPut (EDefaults "b" "http" false)), true).
+Proof. exact example_validity. Qed.
+
 Print Assumptions C15_terminates.
 Print Assumptions C15_closed.
 Print Assumptions C15_paths_end_at_resolvers.
@@ -214,7 +233,9 @@ Print Assumptions C15_cycles_reported_reference.
 Print Assumptions C15_deterministic.
 Print Assumptions C15_deterministic_order.
 Print Assumptions C15_write_guard.
+Print Assumptions C15_write_preserves_validity.
 Print Assumptions C15_write_guard_two_hops.
+Print Assumptions C15_example_validity.
 Print Assumptions C15_example_compiles.
 Print Assumptions C15_example_cycle.
 Print Assumptions C15_example_two_deep.
